@@ -470,7 +470,7 @@ fn final_reachable(g: &Graph, path: &[usize], mode: ModeK) -> bool {
 // ---------------------------------------------------------------------------
 
 fn graphs_for_item(tier: Tier, item: usize) -> Vec<Graph> {
-    let max_l = tier.pick(4usize, 6usize);
+    let max_l = tier.pick(5usize, 6usize);
     let mut out = Vec::new();
     if item <= max_l {
         // straight chains of `item` links: every assignment of the nodes to sources
@@ -559,7 +559,7 @@ fn graphs_for_item(tier: Tier, item: usize) -> Vec<Graph> {
 }
 
 fn n_items(tier: Tier) -> usize {
-    tier.pick(4usize, 6usize) + 1 + 3
+    tier.pick(5usize, 6usize) + 1 + 3
 }
 
 const QTYPES: [QueryType; 4] = [
@@ -634,7 +634,7 @@ pub fn run(ctx: &Ctx) -> i32 {
     procpar::into_report(acc, crashes, &mut report);
     report.rule = "every straight alias chain of 0..L links with every assignment of its nodes to the four sources (authoritative zone a., non-authoritative zone data under n., cache entries under k., upstream zone u.) x final target {has the type, other type only, missing} x upstream replies {one link per reply, chained in one reply}; chains of 7/16/31/32/33/40 links (homogeneous and two-segment source patterns); every cycle shape (self, 2, 3, tail into cycle) in every source assignment; a cached alias contradicting the real one; x question types A, TXT, CNAME, ANY x modes local / recursive / forwarding; one execution = one run of dns_resolver::resolve (child process, 2 MiB stack); non-trivial = graphs of >= 3 nodes mixing >= 2 sources".into();
     report.bounds = json!({
-        "max_exhaustive_chain_length": ctx.tier.pick(4, 6),
+        "max_exhaustive_chain_length": ctx.tier.pick(5, 6),
         "long_chains": [7, 16, 31, 32, 33, 40],
         "cycle_shapes": 7,
     });
